@@ -447,6 +447,35 @@ def _drops_only_none(test, names):
                and isinstance(p_.comparators[0], ast.Constant) and p_.comparators[0].value is None for p_ in parts)
 
 
+def _window_filter_by_interpretation(ctx, g):
+    from ..consteval import run_function, Raised, Unfoldable, module_scope, Instance
+    try:
+        env = module_scope(ctx.ix, SEQUTILS)
+        pairs = [(q_, q_ + 1, 'ACGTAC'[q_]) for q_ in range(6)]       # query position q aligned to reference position q + 1
+
+        def hook(ev, call, env_):
+            if isinstance(call.func, ast.Attribute) and call.func.attr == 'get_aligned_pairs':
+                return list(pairs)
+            if isinstance(call.func, ast.Attribute) and call.func.attr == 'infer_query_length':
+                return 6
+            return NotImplemented
+        read = Instance(attrs={'reference_name': 'c', 'query_sequence': 'ACGTAC', 'query_qualities': [30] * 6, 'seq': 'ACGTAC', 'qual': 'IIIIII', 'is_reverse': False})
+        n = 0
+        for st in (None, 0, 1, 3, 6, 8):
+            for en in (None, 0, 2, 3, 6, 9):
+                n += 1
+                got = run_function(g, [read, st, en], env=env, call_hook=hook, budget=20000)
+                gotp = sorted(k_[1] for k_ in dict(got))
+                want = [r_ for _, r_, _ in pairs if (st is None or r_ >= st) and (en is None or r_ <= en)]
+                if gotp != want:
+                    return (False, n, {'window (start, end)': (st, en), 'aligned reference positions': [r_ for _, r_, _ in pairs], 'reported': gotp, 'expected (inclusive both sides)': want})
+    except (Unfoldable, Raised):
+        return None
+    except Exception:
+        return None
+    return (True, n, None)
+
+
 @rule('C14', 'C14-R5', 'only bases inside the mate-overlap-safe span are called: the dove-safe window is [left mate start + d, right mate end - d - 1] '
                        '(inclusive) in both orientations, symmetric under swapping the mates, and the per-read filter is start <= pos <= end')
 def r5(ctx):
@@ -454,9 +483,17 @@ def r5(ctx):
     # the window handed to the per-read extraction: 2nd and 3rd argument of the read_to_consensus_dict calls
     from ..util import arg as _arg
     rcalls = [c for c in walk_no_nested(f) if isinstance(c, ast.Call) and last_name(dotted(c.func) or '') == 'read_to_consensus_dict' and _arg(c, 1, 'start') is not None and _arg(c, 2, 'end') is not None]
-    if not rcalls or any(not (isinstance(_arg(c, 1, 'start'), ast.Name) and isinstance(_arg(c, 2, 'end'), ast.Name)) for c in rcalls):
+    star = None
+    if not rcalls:
+        # the window handed over as one tuple: read_to_consensus_dict(read, *window, ..)
+        scalls = [c for c in walk_no_nested(f) if isinstance(c, ast.Call) and last_name(dotted(c.func) or '') == 'read_to_consensus_dict' and len(c.args) == 2
+                  and isinstance(c.args[1], ast.Starred) and isinstance(c.args[1].value, ast.Name)]
+        if scalls and len({c.args[1].value.id for c in scalls}) == 1:
+            star = scalls[0].args[1].value.id
+            rcalls = scalls
+    if not rcalls or (star is None and any(not (isinstance(_arg(c, 1, 'start'), ast.Name) and isinstance(_arg(c, 2, 'end'), ast.Name)) for c in rcalls)):
         raise AnalysisError('get_consensus_dictionaries: the window arguments of read_to_consensus_dict are not locals')
-    wins = {(_arg(c, 1, 'start').id, _arg(c, 2, 'end').id) for c in rcalls}
+    wins = {(_arg(c, 1, 'start').id, _arg(c, 2, 'end').id) for c in rcalls} if star is None else {(star + '[0]', star + '[1]')}
     if len(wins) != 1:
         ctx.emit('C14-R5', False, SEQUTILS, rcalls[0], f'the two mates are extracted with different windows {sorted(wins)}', key='dove-window:same-window')
     sv, evn = sorted(wins)[0]
@@ -482,15 +519,31 @@ def r5(ctx):
                     break
                 e = _subst_names(e, sub)
             return e
+        if star is not None:
+            # the two elements of the window tuple stand for the two window locals
+            paths2 = []
+            for env in paths:
+                w_ = env.get(star)
+                if isinstance(w_, ast.Tuple) and len(w_.elts) == 2:
+                    env = dict(env)
+                    env[sv], env[evn] = w_.elts
+                paths2.append(env)
+            paths = paths2
         got = {(str(linform(resolved(env, sv))) if sv in env else None, str(linform(resolved(env, evn))) if evn in env else None) for env in paths}
         ok = bool(paths) and got == {(str(ws), str(we))}
         ctx.emit('C14-R5', ok, SEQUTILS, rcalls[0], f'orientation `{kk}`: safe window {sorted(got, key=str)} on {len(paths)} path(s)' +
                  ('' if ok else f' (expected [{ws}, {we}] inclusive: the last base of the right mate is reference_end - 1)'), key=f'dove-window:{kk}',
                  what='get_consensus_dictionaries: dove-safe window end is not reference_end - distance - 1 in one orientation')
     g = ctx.fn(SEQUTILS, 'read_to_consensus_dict')
-    em = dict_emission(g)
+    sem = _window_filter_by_interpretation(ctx, g)
+    em = dict_emission(g) if sem is None else None
     ok = False
     comp = [em['node']] if em else []
+    if sem is not None:
+        ctx.counters['abstract_cases'] += sem[1]
+        ctx.emit('C14-R5', sem[0], SEQUTILS, g, f'read_to_consensus_dict interpreted on {sem[1]} (window start, window end) settings over a model read: exactly the aligned positions with start <= position <= end '
+                 '(either bound absent = unbounded) are reported' if sem[0] else f'window filter differs: {sem[2]}', key='window-filter', witness=sem[2])
+        comp, ok = [g], sem[0]
     if em:
         conds = em['conds']
         window = [v for v in conds if names_in(v) & {'start', 'end'} and 'refpos' in names_in(v)]
@@ -539,6 +592,67 @@ def r5(ctx):
     # ... computed from the current fragments (C13-R6), from arbitrated fragment calls (C13-R7), with the safe-span request applied as given (C13-R8)
     from ..core import include
     include(ctx, C13, [C13.r2, C13.r6, C13.r7, C13.r8], 'C14-R5')
+
+
+@rule('C14', 'C14-R6', 'the reference the contexts are read from is the reference: a class of the TAPS module that stands in for the reference handle (it has a `fetch` method and is built '
+                       'from a reference handle and a window) returns, for every request inside its window, exactly what the handle itself returns - evaluated for windows that start '
+                       'before, at and after the contig start')
+def r6(ctx):
+    from ..consteval import run_function, Raised, Unfoldable, module_scope, Instance, LocalClass
+    mod = ctx.ix.module(TAPS)
+    wrappers = [c for c in mod.tree.body if isinstance(c, ast.ClassDef) and any(isinstance(m_, ast.FunctionDef) and m_.name == 'fetch' for m_ in c.body)
+                and any(isinstance(m_, ast.FunctionDef) and m_.name == '__init__' and len(m_.args.args) >= 4 for m_ in c.body)]
+    if not wrappers:
+        ctx.emit('C14-R6', True, TAPS, None, 'no class of the TAPS module stands in for the reference handle', key='reference-wrappers', nontrivial=False)
+        return
+    seq = 'ACGTTGCAACGGCCAT'
+
+    def hook(ev, call, env_):
+        if isinstance(call.func, ast.Attribute) and call.func.attr == 'fetch':
+            try:
+                base = ev.ev(call.func.value, env_)
+            except Unfoldable:
+                return NotImplemented
+            if base == '<reference>':
+                a = [ev.ev(x, env_) for x in call.args]
+                if a[1] < 0 or a[2] < 0:
+                    raise Raised('ValueError', 'start out of range')
+                return seq[a[1]:a[2]]
+        return NotImplemented
+    env = module_scope(ctx.ix, TAPS)
+    for c in wrappers:
+        cls = env.get(c.name)
+        bad, n = None, 0
+        try:
+            if not isinstance(cls, LocalClass):
+                raise Unfoldable('class not in scope')
+            init = cls.method('__init__')[0]
+            fetch = cls.method('fetch')[0]
+            sc = dict(cls.scope)
+            sc['__class__'] = cls
+            for s_ in range(-3, 4):
+                for e_ in range(max(s_, 0) + 1, 10):
+                    inst = Instance(cls)
+                    try:
+                        run_function(init, [inst, '<reference>', 'chr', s_, e_], env=sc, call_hook=hook, budget=20000)
+                    except Raised:
+                        continue
+                    for a in range(max(0, s_), e_):
+                        for b in range(a + 1, e_ + 1):
+                            n += 1
+                            try:
+                                got = run_function(fetch, [inst, 'chr', a, b], env=sc, call_hook=hook, budget=20000)
+                            except Raised as r_:
+                                got = f'raises {r_.name}'
+                            if got != seq[a:b] and bad is None:
+                                bad = {'window the stand-in was built for': (s_, e_), 'request': (a, b), 'stand-in returns': got, 'reference holds': seq[a:b]}
+        except (Unfoldable, Exception) as e_:
+            ctx.emit('C14-R6', False, TAPS, c, f'{c.name} stands in for the reference handle and is outside the interpreted subset ({type(e_).__name__}: {str(e_)[:80]})', key=f'reference-wrappers:{c.name}', undecided=True)
+            continue
+        ctx.counters['interpreted_cases'] += n
+        ctx.emit('C14-R6', bad is None, TAPS, c, f'{c.name}: {n} requests inside its window return what the reference returns' if bad is None else
+                 f'{c.name} does not return the reference for a request inside its window: {bad} - every context read through it is shifted', key=f'reference-wrappers:{c.name}', witness=bad,
+                 what=f'{c.name}: a stand-in for the reference handle returns other bases than the reference')
 
 
 META = {
